@@ -28,11 +28,12 @@ import (
 )
 
 type Case struct {
-	T     string      `json:"t"`
-	V     wire.Fields `json:"v"`
-	Bytes []int       `json:"bytes"`
-	PF    bool        `json:"pf"`
-	Kind  string      `json:"kind,omitempty"`
+	T      string      `json:"t"`
+	V      wire.Fields `json:"v"`
+	Bytes  []int       `json:"bytes"`
+	PF     bool        `json:"pf"`
+	Opaque bool        `json:"opaque"` // the body is one opaque field: only the handshake header delimits it
+	Kind   string      `json:"kind,omitempty"`
 	// Base: the base value of the type (for naming the culprit fields of a finding)
 	Base wire.Fields `json:"base,omitempty"`
 }
@@ -159,9 +160,21 @@ func checkCase(c *Case) (fs []finding, real []byte, err error) {
 	// extra bytes (handshake length adjusted) must not be accepted, or the valid encoding would be an
 	// accepted strict prefix of an accepted string
 	if c.PF && ok {
-		for _, extra := range []int{1, 4} {
+		type variant struct {
+			extra  int
+			adjust bool
+		}
+		// extra bytes behind the header-announced body; and (where the body has inner structure) extra
+		// bytes inside it, the handshake length adjusted - for an opaque body the latter would simply be
+		// the valid encoding of a longer value
+		vs := []variant{{1, false}, {4, false}}
+		if !c.Opaque && !isSessionState(c.T) {
+			vs = append(vs, variant{1, true}, variant{4, true})
+		}
+		for _, vr := range vs {
+			extra := vr.extra
 			ext := append(append([]byte(nil), real...), make([]byte, extra)...)
-			if !isSessionState(c.T) && len(ext) >= 4 {
+			if vr.adjust && len(ext) >= 4 {
 				l := len(ext) - 4
 				ext[1], ext[2], ext[3] = byte(l>>16), byte(l>>8), byte(l)
 			}
